@@ -220,11 +220,10 @@ func VH_C01_boolean_region_Q() {
 	default:
 		want = fp
 	}
-	vKnown("D39", op == 4 && (pair == 3 || pair == 4))
+	vKnown("D39", op == 4 && (pair == 3 || pair == 4 || pair == 12 || pair == 14)) // DivideBy of a subject with a hole
 	vKnown("D41", (op == 1 || op == 2) && pair == 3)
 	vAssert("C01.boolean.set_algebra", (wr != 0) == want)
 }
-
 
 // The Paths API (Paths.And/Or/Xor/Not): the operands are lists of paths whose elements may have
 // several contours themselves; the result region is the set algebra of the union of the subject
